@@ -37,7 +37,7 @@ Proof.
     unfold crash; intros H; injection H as <- _; reflexivity.
 Qed.
 
-Lemma loop_inv fuel : forall limit acc c c' r,
+Lemma loop_inv fuel : forall acc c c' r,
   I c ->
   (fix loop (fuel : nat) (acc : list event) : CM (list event) :=
      match fuel with
@@ -48,7 +48,7 @@ Lemma loop_inv fuel : forall limit acc c c' r,
          | [] => (c, Ok acc)
          | (f, blen) :: rest =>
            let '(c1, res1) :=
-             match frame_buffer_check limit f blen with
+             match frame_buffer_check (c_max_in_frame c) f blen with
              | FBReject r => (dispatch r ;;; ret []) c
              | FBYield => receive_frame f (cset_inbuf c rest)
              end in
@@ -76,18 +76,18 @@ Lemma loop_inv fuel : forall limit acc c c' r,
      end) fuel acc c = (c', r) ->
   I c'.
 Proof.
-  induction fuel as [|fuel IH]; intros limit acc c c' r Hi H; pose proof (I_wf c Hi) as Hwf; unfold wf_buf in Hwf.
+  induction fuel as [|fuel IH]; intros acc c c' r Hi H; pose proof (I_wf c Hi) as Hwf; unfold wf_buf in Hwf.
   - unfold ret in H. injection H as <- _. exact Hi.
   - destruct (c_inbuf c) as [|[f blen] rest] eqn:Eb.
     + injection H as <- _. exact Hi.
     + inversion Hwf as [|? ? Hf Hrest]; subst.
-      destruct (frame_buffer_check limit f blen) as [|rj] eqn:Ec.
+      destruct (frame_buffer_check (c_max_in_frame c) f blen) as [|rj] eqn:Ec.
       * (* yielded *)
         destruct (receive_frame f (cset_inbuf c rest)) as [c1 res1] eqn:Er.
         assert (Hi0 : I (cset_inbuf c rest)) by (apply I_inbuf; [exact Hi | exact Hrest]).
         pose proof (I_frame f Hf _ _ _ Hi0 Er) as Hi1.
         destruct res1 as [evs|e code sid rst|p].
-        -- exact (IH limit _ _ _ _ Hi1 H).
+        -- exact (IH _ _ _ _ Hi1 H).
         -- destruct (is_protocol_error e).
            ++ destruct (terminate_connection code c1) as [c2 res2] eqn:Et.
               pose proof (I_terminate code _ _ _ Hi1 Et) as Hi2.
@@ -102,7 +102,7 @@ Proof.
         assert (Hrj : match rj with RTooLarge | RBadBody _ => True | _ => False end).
         { unfold frame_buffer_check in Ec.
           destruct (bad_stream_association f); [injection Ec as <-; exact Logic.I|].
-          destruct (g_fb_len blen limit); [injection Ec as <-; exact Logic.I|].
+          destruct (g_fb_len blen (c_max_in_frame c)); [injection Ec as <-; exact Logic.I|].
           destruct (bad_promised_id f); [injection Ec as <-; exact Logic.I|].
           destruct f; try discriminate; injection Ec as <-; exact Logic.I. }
         pose proof (reject_no_change rj _ _ _ Er) as Hsame.
@@ -131,7 +131,7 @@ Proof.
   unfold bind at 1 in H. unfold modify at 1 in H. unfold bind at 1 in H. unfold get at 1 in H.
   assert (Hi' : I (cset_inbuf c (c_inbuf c ++ fs))).
   { apply I_inbuf; [exact Hi|]. apply Forall_app. split; [exact (I_wf c Hi) | exact Hfs]. }
-  exact (loop_inv _ _ _ _ _ _ Hi' H).
+  exact (loop_inv _ _ _ _ _ Hi' H).
 Qed.
 End Lift.
 
